@@ -21,6 +21,10 @@ with ≈ as `Spec/Perm.lean` says.  Proved here:
   counterexamples          each tie hypothesis is necessary (`*_tie_counterexample`), the code before the repair
                            of D18 (`dominant_bpm_order_counterexample`), the object-dtype bit test of N15a
 
+  write_osu_perm           the osu writer: both written texts read back (C01's whole-text reader model) as the same
+                           chart up to row order                   hyp: those of C01's `read_writeText`
+  write_sm_perm_partial    the StepMania writer: same multiset of object slots and of `#BPMS` pairs for any order of
+                           the tempo rows and of the notes          hyp: C10's domain, as C03's `written_beats_exact`
   write_qua_perm           the Quaver writer: both written documents denote (by the book) the same chart up to
                            row order                               hyp: those of C06's `qua_write_denotes`
 
